@@ -63,6 +63,29 @@ type reqForm struct {
 	KA     bool   `json:"keepalive"`
 	Cookie bool   `json:"cookie"`
 	ECS    bool   `json:"ecs"`
+
+	// The rest of the TTL field of the request's OPT: EDNS version, extended
+	// RCODE and the reserved Z bits (everything but DO).
+	TTLVar   string `json:"opt_ttl_variant"`
+	Z        uint16 `json:"z_bits"`
+	Version  uint8  `json:"edns_version"`
+	ExtRcode uint8  `json:"ext_rcode"`
+}
+
+// ttlVariants are the non-plain contents of the request OPT's TTL field.
+var ttlVariants = []reqForm{
+	{TTLVar: "v1", Version: 1},
+	{TTLVar: "v2", Version: 2},
+	{TTLVar: "v255", Version: 255},
+	{TTLVar: "ext-rcode", ExtRcode: 0x5a},
+	{TTLVar: "z-bits", Z: 0x5aa5},
+	{TTLVar: "v1+ext-rcode+z-bits", Version: 1, ExtRcode: 1, Z: 0x7fff},
+}
+
+func withTTL(f reqForm, v reqForm) reqForm {
+	f.TTLVar, f.Version, f.ExtRcode, f.Z = v.TTLVar, v.Version, v.ExtRcode, v.Z
+
+	return f
 }
 
 func (f reqForm) hasOPT() bool { return f.Adv >= 0 }
@@ -112,7 +135,7 @@ func (f reqForm) opt() (o *tbench.OPTSpec) {
 		return nil
 	}
 
-	o = &tbench.OPTSpec{UDPSize: uint16(f.Adv), DO: f.DO}
+	o = &tbench.OPTSpec{UDPSize: uint16(f.Adv), DO: f.DO, Version: f.Version, ExtRcode: f.ExtRcode, ZFlags: f.Z}
 	if f.NSID >= 0 {
 		d := make([]byte, f.NSID)
 		for i := range d {
@@ -204,6 +227,15 @@ func boundaryProtos(paths []*pathDef) (out []proto) {
 	}
 
 	for _, p := range paths {
+		// The TTL field of the request's OPT, on every path, against every
+		// kind of handler OPT.
+		for own := 0; own <= 2; own++ {
+			for i, v := range ttlVariants {
+				base := optSet([]string{"none", "do", "nsid5"}[(i+own)%3])
+				add(p, "opt-ttl", withTTL(withAdv(base, 1232), v), own, 100, 700)
+			}
+		}
+
 		switch p.family {
 		case famUDP, famDCUDP:
 			for _, adv := range advertised {
@@ -344,6 +376,14 @@ func buildCells(r *vkit.Run, protos []proto) (cells []*cell, err error) {
 		c := &cell{
 			idx: i, path: pr.path, form: pr.form, boundary: pr.boundary, id: uint16(i*7 + 11),
 			sh: shape{Cell: i, T: pr.t, OwnOPT: pr.ownOPT, Mix: pick(rng, mixes), Kind: pick(rng, kinds), Propagate: rng.IntN(4) == 0},
+		}
+
+		if c.form.hasOPT() && c.form.TTLVar == "" {
+			if k := rng.IntN(2 * len(ttlVariants)); k < len(ttlVariants) && c.boundary == "" {
+				c.form = withTTL(c.form, ttlVariants[k])
+			} else {
+				c.form.TTLVar = "plain"
+			}
 		}
 
 		flags := tbench.FlagRD
